@@ -32,7 +32,7 @@ class WorkerCrash(Exception):
 
 
 class Message:
-    __slots__ = ("w", "i", "solution", "stats_at_put", "stats_later", "t_put", "t_avail", "payload", "payload_w")
+    __slots__ = ("w", "i", "solution", "stats_at_put", "stats_later", "t_put", "t_avail", "payload", "payload_w", "_size")
 
     def __init__(self, w, i, solution, stats_at_put):
         self.w, self.i = w, i
@@ -42,6 +42,7 @@ class Message:
         self.t_put = 0
         self.t_avail = 0
         self.payload = None
+        self._size = None
 
 
 class Stream:
@@ -138,6 +139,7 @@ class SimProcess:
         SimProcess._pid += 1
         self.pid = SimProcess._pid
         self.index = len(world.procs)
+        self.queue = None
 
     # ------------------------------------------------------------------------------------------------ lifecycle
     def start(self):
@@ -168,11 +170,20 @@ class SimProcess:
         self.stream = stream
         self.queue.attach(self, stream)
 
+    def blocked_flushing(self) -> bool:
+        """Back-pressure of the pipe: a worker (not a killed one) cannot exit while messages it has put are still in
+        its feeder buffer, i.e. while the pipe (capacity plan['pipe_bytes'], default 64 KiB) is full of unread data."""
+        if self._exitcode is not None and self._exitcode < 0:
+            return False
+        return self.queue is not None and self.queue.buffered_in_producer(self.index)
+
     def is_alive(self):
         self.world.tick()
         if not self.started:
             return False
-        return self.exit_time is None or self.world.now < self.exit_time
+        if self.exit_time is None or self.world.now < self.exit_time:
+            return True
+        return self.blocked_flushing()
 
     @property
     def exitcode(self):
@@ -191,6 +202,12 @@ class SimProcess:
             if w.now < self.exit_time:
                 w.now = self.exit_time
                 w.progress()
+            if self.blocked_flushing():
+                w.fired["join-while-pipe-full"] = w.fired.get("join-while-pipe-full", 0) + 1
+                raise SimDeadlock(
+                    f"join() of worker {self.index} at t={w.now}ms: the worker cannot exit because the pipe is full of "
+                    f"unread messages and the caller, blocked in join(), no longer reads the queue"
+                )
         else:
             t = int(timeout * 1000)
             if t > 0:
@@ -353,6 +370,28 @@ class SimQueue:
 
     def undelivered(self):
         return [m for q in self.pending.values() for m in q]
+
+    def buffered_in_producer(self, widx: int) -> bool:
+        """True iff some message already put by worker widx has not entered the pipe yet: messages enter the pipe
+        in put order and the pipe holds at most plan['pipe_bytes'] unread bytes."""
+        cap = self.world.plan.get("pipe_bytes", 65536)
+        now = self.world.now
+        put = sorted((m for q in self.pending.values() for m in q if m.t_put <= now), key=lambda m: (m.t_put, m.w, m.i))
+        used = 0
+        for m in put:
+            used += msg_size(m)
+            if used > cap and m.w == widx:
+                return True
+        return False
+
+
+def msg_size(m) -> int:
+    if getattr(m, "_size", None) is None:
+        try:
+            m._size = len(pickle.dumps(m.payload)) + 4
+        except Exception:
+            m._size = 300
+    return m._size
 
 
 DELAYS = {
